@@ -75,6 +75,8 @@ class Check:
                 g = {'ok': False, 'checked': 0, 'first_mismatch': {'docs': None, 'diff': 'gate crashed: %r' % (e,)}}
             g['wall_s'] = round(time.time() - t, 2)
             self.gate_report = g
+            if g.get('native_panics') and self.prop != 'C07':
+                self.notes.append('the native library panics on %d document(s) of the conformance corpus, e.g. %r (reported as a violation by C07)' % (len(g['native_panics']), g['native_panics'][0]['docs']))
             if not g['ok']:
                 self.inconclusive.append('conformance gate failed: the executor does not reproduce the native library on %r: %s' % (g['first_mismatch']['docs'], str(g['first_mismatch']['diff'])[:600]))
         return self.gate_report is None or self.gate_report['ok']
@@ -82,7 +84,7 @@ class Check:
     # ------------------------------------------------------------------ harness exploration
     def run(self, label, mod, cls, kw, time_cap=None, path_cap=None, required_witnesses=()):
         if self.args.only and self.args.only not in label: return None
-        tc = time_cap or (120 if self.tier == 'quick' else 900)
+        tc = time_cap or (600 if self.tier == 'quick' else 900)          # guards only: configurations are sized to finish far below them (wall time varies 2-3x on a loaded host)
         pc = path_cap or (60000 if self.tier == 'quick' else 4000000)
         kw = dict(kw); kw.setdefault('sample_rate', 0.01 if self.tier == 'quick' else 0.001)
         r = H.run_harness(self.ast_path, mod, cls, kw, seed=self.seed, workers=self.args.workers, time_cap=tc, path_cap=pc)
